@@ -971,6 +971,11 @@ def cached_script_view(
     if req.method != "GET":
         return HttpResponseNotAllowed(["GET"])
 
+    # Unknown script kinds (anything but "js" / "css") are not served. Checking this first also
+    # keeps a crafted kind like "js:<input_hash>" from reaching another entry's cache key.
+    if script_type not in _CONTENT_TYPES:
+        return HttpResponseNotFound()
+
     comp_cls = comp_hash_mapping.get(comp_cls_hash)
     if comp_cls is None:
         return HttpResponseNotFound()
